@@ -55,13 +55,17 @@ impl<F: Future> Future for Budget<F> {
         // sometimes give up *before* re-polling: the inner future may have been notified in the
         // meantime, so this drops a woken-but-not-yet-polled future (the wake-up must be passed on)
         if this.polled && draw(100) < 25 {
+            super::count("cancel_before_repoll");
             return Poll::Ready(None);
         }
         this.polled = true;
         let fut = unsafe { Pin::new_unchecked(&mut this.fut) };
         match fut.poll(cx) {
             Poll::Ready(v) => Poll::Ready(Some(v)),
-            Poll::Pending if this.left == 0 => Poll::Ready(None),
+            Poll::Pending if this.left == 0 => {
+                super::count("cancel_pending");
+                Poll::Ready(None)
+            }
             Poll::Pending => {
                 this.left -= 1;
                 if this.spin || draw(2) == 0 {
